@@ -23,6 +23,7 @@ from guppylang_internals.checker.expr_checker import (
 from guppylang_internals.definition.custom import (
     CustomCallChecker,
 )
+from guppylang_internals.definition.overloaded import _fresh_args
 from guppylang_internals.diagnostic import Error, Note
 from guppylang_internals.error import GuppyError, GuppyTypeError, InternalGuppyError
 from guppylang_internals.nodes import (
@@ -282,8 +283,13 @@ class NewArrayChecker(CustomCallChecker):
         # Extract the iterator size
         match gen.iter_assign:
             case ast.Assign(value=MakeIter() as make_iter):
+                # Checking mutates nodes in place and the iterator expression is checked
+                # again when the generator is checked below, so probe its size on a
+                # copy. Otherwise, checking an iterator that itself contains a
+                # comprehension twice fails (`array(x for _ in array(y for _ in ys))`)
+                [probe] = _fresh_args([make_iter.value])
                 sized_make_iter = MakeIter(
-                    make_iter.value, make_iter.origin_node, unwrap_size_hint=False
+                    probe, make_iter.origin_node, unwrap_size_hint=False
                 )
                 _, iter_ty = ExprSynthesizer(self.ctx).synthesize(sized_make_iter)
                 # The iterator must have a static size hint
